@@ -132,9 +132,11 @@ def mc_heap(pid, tier, invariant, emit_histories=False):
     work = os.path.join(WORK, pid, "mc_heap")
     os.makedirs(work, exist_ok=True)
     out = {"states": 0, "transitions": 0, "viols": [], "notes": [], "histories": [], "sim_histories": []}
-    runs = [("bfs", dict(MaxVars=3, MaxBlocks=8, Arities="{0,1,2,4,5}", MaxLevel=T(tier, 4, 6)), None),
+    runs = [("bfs", dict(MaxVars=3, MaxBlocks=8, Arities="{0,1,2,4,5}", MaxLevel=T(tier, 4, 5)), None),
             ("sim", dict(MaxVars=4, MaxBlocks=14, Arities="{0,1,2,3,4,5,7}", MaxLevel=60), "num=%d" % T(tier, 3, 200))]
     for mode, consts, sim in runs:
+        consts = dict(consts, EmitFrom=(1 if sim or tier == "quick" else consts["MaxLevel"] - 2),
+                      EmitOneIn=(1 if tier == "quick" else (25 if sim else 8)))
         cfg = "SPECIFICATION Spec\nCONSTANTS\n" + "".join("  %s = %s\n" % kv for kv in consts.items()) + "  FootK = 1\n" + \
               "INVARIANT %s\n%sCONSTRAINT Bounded\nVIEW StateView\nCHECK_DEADLOCK FALSE\n" % (invariant, "INVARIANT EmitHist\n" if emit_histories else "")
         cname = "MC_Heap_%s_%s.cfg" % (pid, mode)
